@@ -35,6 +35,37 @@ def counter_writers(model: Model):
     return out
 
 
+def id_codec_symmetry(model: Model, run: Run) -> None:
+    """N6: "the IDs carried in the bytes": the first component of every message envelope is written by the plain INTEGER
+    writer from `message_id`, and the envelope decoder reads its first component with the plain INTEGER reader (same tag,
+    no mode switch, no conversion of its own) into the value that becomes `message_id`."""
+    from ..tlvcheck import extracted, short
+    tx = extracted(model)
+    env = tx.envelope.nodes
+    if not (len(env) == 1 and env[0].kind == "cons" and env[0].children):
+        raise AnalysisError("unexpected envelope shape in the reader grammar")
+    r0 = env[0].children[0]
+    n = 0
+    for c in tx.msg_classes:
+        w = tx.wgram.get(c)
+        if not w or not (len(w) == 1 and w[0].kind == "cons" and w[0].children):
+            continue
+        w0 = w[0].children[0]
+        n += 1
+        problems = []
+        if not (w0.kind == "prim" and w0.ukind == "integer" and w0.src is not None and w0.src.path == "message_id" and w0.src.conv == "identity" and not w0.modes):
+            problems.append(f"pack writes `{w0.brief()[:60]}` first, not the plain INTEGER of message_id")
+        if not (r0.kind == "prim" and r0.ukind == "integer" and r0.conv == "identity" and not r0.modes):
+            problems.append(f"the envelope decoder reads `{r0.brief()[:60]}`" + (f" ({r0.modes})" if r0.modes else "") + " first, not a plain INTEGER")
+        elif w0.tag is not None and r0.spec is not None and not r0.spec.accepts(w0.tag):
+            problems.append(f"the decoder expects {r0.spec!r} where pack writes {w0.tag}")
+        run.ob("N6-id-codec-symmetric", not problems, {"class": short(c)})
+        if problems:
+            run.fail(Finding("N6-id-codec-symmetric", c if "pack writes" in problems[0] else tx.envelope.func, problems[0][:100],
+                             f"{short(c)}: " + "; ".join(problems) + ": the ID a peer reads is not the ID the session handed out (or the other way round)", ""))
+    run.floor("message envelopes compared for the ID codec", n, 9)
+
+
 def check(model: Model, run: Run) -> None:
     ex = extraction(model)
     run.explanation = ("client correlation rules on the path summaries of LDAPClient extracted by Engine D: counter discipline "
@@ -42,6 +73,7 @@ def check(model: Model, run: Run) -> None:
                        "bytes are queued, returned, recorded as outstanding only after the send), acceptance/rejection table of "
                        "incoming messages by (class, id in search set, id in outstanding set)")
     common_coverage(ex, run)
+    id_codec_symmetry(model, run)
     # ---- counter discipline ------------------------------------------------
     ws = counter_writers(model)
     run.floor("counter writers", len(ws), 2)
